@@ -57,11 +57,11 @@ deriving DecidableEq, Repr
 /-- `__name__` of the class of a type (enum classes have their own names, which are
 not in any table) -/
 def Ty.name : Ty → Str
-  | .int => "int".toList | .bool => "bool".toList | .float => "float".toList
-  | .decimal => "Decimal".toList | .str => "str".toList | .qname => "QName".toList
-  | .bytes => "bytes".toList | .xmlDate => "XmlDate".toList | .xmlTime => "XmlTime".toList
-  | .xmlDateTime => "XmlDateTime".toList | .enum _ => "<enum>".toList
-  | .unregistered => "<unregistered>".toList
+  | .int => ['i', 'n', 't'] | .bool => ['b', 'o', 'o', 'l'] | .float => ['f', 'l', 'o', 'a', 't']
+  | .decimal => ['D', 'e', 'c', 'i', 'm', 'a', 'l'] | .str => ['s', 't', 'r'] | .qname => ['Q', 'N', 'a', 'm', 'e']
+  | .bytes => ['b', 'y', 't', 'e', 's'] | .xmlDate => ['X', 'm', 'l', 'D', 'a', 't', 'e'] | .xmlTime => ['X', 'm', 'l', 'T', 'i', 'm', 'e']
+  | .xmlDateTime => ['X', 'm', 'l', 'D', 'a', 't', 'e', 'T', 'i', 'm', 'e'] | .enum _ => ['<', 'e', 'n', 'u', 'm', '>']
+  | .unregistered => ['<', 'u', 'n', 'r', 'e', 'g', 'i', 's', 't', 'e', 'r', 'e', 'd', '>']
 
 /-! ### atomic conversion -/
 
@@ -207,6 +207,16 @@ def sortTypes (names : List Str) : List Str :=
   if names.length < 2 then names
   else names.mergeSort (fun a b => typePriority a ≤ typePriority b)
 
+/-- priority of a candidate type -/
+def Ty.prio (t : Ty) : Nat := typePriority t.name
+
+/-- `ConverterFactory.sort_types(types)` on candidate types -/
+def sortTys (tys : List Ty) : List Ty :=
+  if tys.length < 2 then tys else tys.mergeSort (fun a b => a.prio ≤ b.prio)
+
+/-- the type has an entry in `__PYTHON_TYPES_SORTED__` -/
+def Ty.inTable (t : Ty) : Bool := (Tables.pythonTypesSorted.find? (·.1 = t.name)).isSome
+
 /-- `ConverterFactory.type_converter(cls)` given `cls.__mro__` as class names and the
 registered class names: the class whose converter is used; `none` = `ConverterError` -/
 def typeConverter (registry : List Str) (mro : List Str) : Option Str :=
@@ -220,11 +230,11 @@ def typeConverter (registry : List Str) (mro : List Str) : Option Str :=
 
 /-- class name of a value, as `type(value).__name__` -/
 def Atom.typeName : Atom → Str
-  | .str _ => "str".toList | .int _ => "int".toList | .bool _ => "bool".toList
-  | .float _ => "float".toList | .dec _ => "Decimal".toList
-  | .bytes .plain _ => "bytes".toList | .bytes .hex _ => "XmlHexBinary".toList
-  | .bytes .b64 _ => "XmlBase64Binary".toList | .qname _ => "QName".toList
-  | .date _ => "XmlDate".toList | .time _ => "XmlTime".toList | .dateTime _ => "XmlDateTime".toList
+  | .str _ => ['s', 't', 'r'] | .int _ => ['i', 'n', 't'] | .bool _ => ['b', 'o', 'o', 'l']
+  | .float _ => ['f', 'l', 'o', 'a', 't'] | .dec _ => ['D', 'e', 'c', 'i', 'm', 'a', 'l']
+  | .bytes .plain _ => ['b', 'y', 't', 'e', 's'] | .bytes .hex _ => ['X', 'm', 'l', 'H', 'e', 'x', 'B', 'i', 'n', 'a', 'r', 'y']
+  | .bytes .b64 _ => ['X', 'm', 'l', 'B', 'a', 's', 'e', '6', '4', 'B', 'i', 'n', 'a', 'r', 'y'] | .qname _ => ['Q', 'N', 'a', 'm', 'e']
+  | .date _ => ['X', 'm', 'l', 'D', 'a', 't', 'e'] | .time _ => ['X', 'm', 'l', 'T', 'i', 'm', 'e'] | .dateTime _ => ['X', 'm', 'l', 'D', 'a', 't', 'e', 'T', 'i', 'm', 'e']
 
 def nthCode (codes : List Str) (i : Nat) : Str := codes.getD i []
 
